@@ -6,7 +6,7 @@ import hexlib
 from common import hx
 
 ID = "C01"
-LEAN_IMPORTS = ["PyTrie.Props.C01"]
+LEAN_IMPORTS = ["PyTrie.Props.C01", "PyTrie.Props.C01World"]
 THEOREMS = [
     "PyTrie.Props.C01.get_set",
     "PyTrie.Props.C01.get_delete",
@@ -16,6 +16,9 @@ THEOREMS = [
     "PyTrie.Props.C01.run_getT_never_raises",
     "PyTrie.Props.C01.nibs_injective",
     "PyTrie.Props.C01.d1_pinned_raises",
+    "PyTrie.Props.C01.world_tree",
+    "PyTrie.Props.C01.world_progress",
+    "PyTrie.Props.C01.world_get",
 ]
 RULE = ("histories of set/setitem/set-to-empty/delete/delitem and squash_changes batches (committed and aborted) "
         "over crafted and random prefix-sharing key universes (empty key, prefixes, extensions, mid-path "
